@@ -3,6 +3,7 @@ package mp4
 import (
 	"fmt"
 	"io"
+	"strings"
 
 	"github.com/Eyevinn/mp4ff/bits"
 )
@@ -100,6 +101,22 @@ func sizeMatchesInput(size, inputSize uint64) bool {
 	return size <= inputSize && (inputSize-size)%largeSizeLen == 0
 }
 
+// childSizesMsg lists type and size of the children for an error message. Only the last children are listed,
+// since the message is otherwise quadratic in the number of children to build.
+func childSizesMsg(children []Box) string {
+	const maxListed = 16
+	var msg strings.Builder
+	first := 0
+	if len(children) > maxListed {
+		first = len(children) - maxListed
+		fmt.Fprintf(&msg, "(%d children before) ", first)
+	}
+	for _, c := range children[first:] {
+		fmt.Fprintf(&msg, "%s:%d ", c.Type(), c.Size())
+	}
+	return msg.String()
+}
+
 // DecodeContainerChildren decodes a container box
 func DecodeContainerChildren(hdr BoxHeader, startPos, endPos uint64, r io.Reader) ([]Box, error) {
 	children := make([]Box, 0, 8)
@@ -125,11 +142,7 @@ func DecodeContainerChildren(hdr BoxHeader, startPos, endPos uint64, r io.Reader
 		if pos == endPos {
 			return children, nil
 		} else if pos > endPos {
-			msg := ""
-			for _, c := range children {
-				msg += fmt.Sprintf("%s:%d ", c.Type(), c.Size())
-			}
-			return nil, fmt.Errorf("non-matching children box sizes, parentSize=%d, %s", endPos-startPos, msg)
+			return nil, fmt.Errorf("non-matching children box sizes, parentSize=%d, %s", endPos-startPos, childSizesMsg(children))
 		}
 	}
 }
@@ -153,11 +166,7 @@ func DecodeContainerChildrenSR(hdr BoxHeader, startPos, endPos uint64, sr bits.S
 	initPos := sr.GetPos()
 	for {
 		if pos > endPos {
-			msg := ""
-			for _, c := range children {
-				msg += fmt.Sprintf("%s:%d ", c.Type(), c.Size())
-			}
-			return nil, fmt.Errorf("non-matching children box sizes, parentSize=%d, %s", endPos-startPos, msg)
+			return nil, fmt.Errorf("non-matching children box sizes, parentSize=%d, %s", endPos-startPos, childSizesMsg(children))
 		}
 		if pos == endPos {
 			break
